@@ -13,7 +13,7 @@ use uom::si::time::second;
 pub fn def() -> PropDef {
     PropDef {
         id: "C18",
-        rule: "inputs: every tabulated time of each of the 92 z slices exactly and +-1 ulp (exhaustive: every knot), the midpoint of every knot interval, the first/last knot, pairs (t, t + 8 ns) at every knot and at generated times, uniform (z, t) in [-1.3, 1.3] m x [-1e-6, 5e-6] s, every slice bound +-1 ulp with both signs, z = +-0; oracle: the harness's own reader of drift_1T_70Ar_30CO2.json (slice = first bound >= |z|; Ok iff |z| <= 1.152 and t_first <= t <= t_last inclusive, with the matching error variant otherwise) agrees on Ok/Err and the error kind; on Ok r within [r_min, r_max] of the slice, r equals the independent linear interpolation within 1e-12 m, r(z,t) == r(-z,t) by bits, r at knot j == tabulated r_j within 1e-12 m, r non-increasing in t, phi_out == phi_in - L modulo a full turn (phi_in = a wire azimuth, every case in four on the first or last eight wires where L can exceed the azimuth, plus 0, 1e-9, 2 pi - 1e-9) with 0 <= L <= max L of the slice and L equal to the independent interpolation within 1e-12; |r(t + 8 ns) - r(t)| < 0.5 mm; non-trivial = successful lookups within 1 ulp of a knot or slice bound, and the (t, t + 8 ns) pairs; distinct by (slice, time bits)",
+        rule: "inputs: every tabulated time of each of the 92 z slices exactly and +-1 ulp (exhaustive: every knot), the midpoint of every knot interval, the first/last knot, pairs (t, t + 8 ns) at every knot and at generated times, uniform (z, t) in [-1.3, 1.3] m x [-1e-6, 5e-6] s, histories of 2-11 lookups hopping between three neighbouring slices (bounds, bounds +-1 ulp, interior points, both signs) on one thread, every slice bound +-1 ulp with both signs, z = +-0; oracle: the harness's own reader of drift_1T_70Ar_30CO2.json (slice = first bound >= |z|; Ok iff |z| <= 1.152 and t_first <= t <= t_last inclusive, with the matching error variant otherwise) agrees on Ok/Err and the error kind; on Ok r within [r_min, r_max] of the slice, r equals the independent linear interpolation within 1e-12 m, r(z,t) == r(-z,t) by bits, r at knot j == tabulated r_j within 1e-12 m, r non-increasing in t, phi_out == phi_in - L modulo a full turn (phi_in = a wire azimuth, every case in four on the first or last eight wires where L can exceed the azimuth, plus 0, 1e-9, 2 pi - 1e-9) with 0 <= L <= max L of the slice and L equal to the independent interpolation within 1e-12; |r(t + 8 ns) - r(t)| < 0.5 mm; non-trivial = successful lookups within 1 ulp of a knot or slice bound, and the (t, t + 8 ns) pairs; distinct by (slice, time bits)",
         assumptions: &[
             "KNOWN FINDING D6: the shipped table has adjacent-knot radius steps of 0.50-0.66 mm in the first knots of most slices; the lookup interpolates them faithfully, so the literal 0.5 mm clause fails for pairs overlapping those intervals. Those (slice, knot) intervals are listed in known/C18-steps.json; a pair that breaks 0.5 mm elsewhere, or by more than the tabulated step, is a VIOLATION",
         ],
@@ -200,8 +200,41 @@ fn run(r: &Run) {
         ev.nontrivial(fingerprint(&("bound", z.to_bits())));
         Ok(())
     });
-    // uniform
+    // histories: the lookup is a pure function of (z, t, phi); a sequence of lookups in a generated
+    // order on one thread - bounds, their neighbours and interior points of generated slices, both
+    // signs - must give what each lookup gives on its own (every one is judged against the table)
     let seed = r.seed;
+    r.enumerate("lookup_histories", r.tier.pick(4_000, 200_000), move |i, ev| {
+        let n = 2 + (mix(seed ^ 0x4157, i) % 10) as u64;
+        for k in 0..n {
+            let h = mix(seed ^ i, k);
+            // a few neighbouring slices per history, so that consecutive lookups hop between them
+            let base = (mix(seed ^ 0x51, i) % 90) as usize;
+            let si = (base + (h % 3) as usize).min(tab.len() - 1);
+            let b = tab[si].z_upper;
+            let lower = if si == 0 { 0.0 } else { tab[si - 1].z_upper };
+            let z = match (h >> 8) % 6 {
+                0 => b,
+                1 => ulp(b, true),
+                2 => ulp(b, false),
+                3 => 0.5 * (lower + b),
+                4 => ulp(lower, true),
+                _ => lower,
+            };
+            let z = if (h >> 16) & 1 == 0 { z } else { -z };
+            let knots = &tab[si].knots;
+            let t = match (h >> 20) % 4 {
+                0 => knots[knots.len() - 1].0,
+                1 => 0.0,
+                2 => knots[(h >> 24) as usize % knots.len()].0,
+                _ => knots[knots.len() - 1].0 * ((h >> 24) % 1000) as f64 / 999.0,
+            };
+            point(z, t, listed, ev)?;
+        }
+        ev.nontrivial(fingerprint(&("history", i)));
+        Ok(())
+    });
+    // uniform
     r.enumerate("uniform", r.tier.pick(8_000_000, 100_000_000), move |i, ev| {
         let u = |k: u64| (mix(seed ^ k, i) >> 11) as f64 / (1u64 << 53) as f64;
         let z = match i % 16 {
